@@ -169,6 +169,26 @@ def run_unit(args, on_partial=None):
                         unroll_budget[0] -= time.time() - tu
                         if w is not None:
                             seen[bn] = w
+                if seen[bn]["verdict"] != "confirmed":
+                    # z3 answered sat but its model does not fail on the real code (string theory + uninterpreted functions:
+                    # z3's sat answers are not always backed by a real model).  Second opinion: an `unsat` from cvc5 on the
+                    # same query is a proof; anything else leaves the obligation as it was (undecided, never a violation).
+                    try:
+                        import z3 as _z3
+                        s2 = _z3.Solver()
+                        for cnd in o.pc:
+                            s2.add(cnd)
+                        s2.add(_z3.Not(o.goal))
+                        r2, be = core._cvc5_check(s2.to_smt2(), u.cvc5_ms or core.CVC5_TIMEOUT_MS)
+                    except Exception:
+                        r2, be = "unknown", "cvc5"
+                    if r2 == "unsat":
+                        o.status, o.backend = "discharged", be
+                        o.note = "z3 sat with a model that does not fail on the real code; cvc5 proves the query unsat"
+                        d = o.summary()
+                        if len(res["obligations"]) < 4000:
+                            res["obligations"].append(d)
+                        continue
                 d["replay"] = seen[bn]
                 d["model"] = model_text(o.model)
                 d["goal"] = str(o.goal)[:600]
